@@ -13,7 +13,9 @@ SPEC = dict(
           "reported as it is; n identical models change nothing. The Float average and the top-up model are compared with the real "
           "code; on real multi-conformation runs the AVR records are compared with an independent mean over the conformations "
           "containing each group, every group existing in some conformation must be reported, single-conformation and "
-          "repeated-model identities are checked on the whole record and the .pka text.",
+          "repeated-model identities are checked on the whole record and the .pka text. The remaining numeric fields of a record (buried "
+          "fraction, atom counts) follow the same add-then-divide path: scalar_average_is_mean, with the Float model compared with the real "
+          "AVR values of protein-sized alternate-location inputs (non-zero buried fractions).",
     note="A group 'exists in a conformation' is decided as the code does (same atom residue label and same group type). Determinants "
          "are compared per partner (the average merges determinants towards the same partner).",
     technique="Lean 4 proof (induction over the copy loop; linear algebra of sums over Q) + differential correspondence + independent-mean evaluation on real runs",
@@ -228,6 +230,7 @@ def run(ctx):
     ignore = read_parameter_file("propka.cfg", Parameters()).ignore_residues
     mean_bad, top_bad, same_bad = [], [], []
     areqs, areals, treqs, treals = [], [], [], []
+    sreqs, sreals = [], []
     for name, text, kind in gen_inputs(ctx):
         if kind == "identical":
             single, multi = text
@@ -276,6 +279,9 @@ def run(ctx):
             if found and not g.atom.cysteine_bridge:
                 areqs.append("dets avg " + ";".join(enc_group(h) for h in found))
                 areals.append((g.pka_value, g.energy_volume, g.energy_local, [psum(g.determinants[t]) for t in ('sidechain', 'backbone', 'coulomb')]))
+                for f in ("buried", "num_volume", "num_local"):
+                    sreqs.append("dets avgs " + ",".join(str(common.bits(float(getattr(h, f)))) for h in found))
+                    sreals.append((g.label, f, float(getattr(g, f))))
         # top-up: run the parser-level pipeline again without protonation side effects
         o2 = observe.run(text, ["-k"], want_text=False)
         if not o2.error:
@@ -311,6 +317,10 @@ def run(ctx):
             if not ok:
                 dis.append((q[:60], r[:3], vals))
         ctx.oblige("correspondence: Float average model = real AVR records (%d groups)" % len(areqs), not dis, str(dis[:1]))
+        souts = common.driver_batch(sreqs) if sreqs else []
+        sdis = [(r, common.unbits(int(m))) for r, m in zip(sreals, souts) if abs(common.unbits(int(m)) - r[2]) > 1e-12]
+        ctx.oblige("correspondence: Float scalar-average model = real AVR buried fraction / atom counts (%d values, %d non-zero)" % (len(sreqs), sum(1 for r in sreals if r[2] != 0.0)),
+                   not sdis, str(sdis[:2]))
         topup_corr(ctx, ignore)
     else:
         ctx.oblige("correspondence: average / top-up models = real code", False, "driver not built")
